@@ -258,10 +258,8 @@ Proof.
   { unfold good; cbn. split; [lia|]. split; [intros x []|constructor]. }
   specialize (Hg pre _ G0). set (c := fold_left F pre _) in *. clearbody c.
   destruct (good_result _ _ Hg) as (H1 & H2 & H3).
-  assert (I : Inv pay ustate (init_state start (ix_u c) (rev (ix_new c))
-                                (match rev (ix_new c) with [] => 1 | _ => ix_ctr c end))).
-  { apply init_inv; [exact H3|]. intros x Hx. specialize (H2 x Hx).
-    destruct (rev (ix_new c)); [contradiction|lia]. }
+  assert (I : Inv pay ustate (init_state start (ix_u c) (rev (ix_new c)) (ix_ctr c))).
+  { apply init_inv; [exact H3|]. intros x Hx. specialize (H2 x Hx). lia. }
   destruct I. constructor; cbn in *; auto.
 Qed.
 
